@@ -46,7 +46,7 @@ class C08(HistoryProperty):
         "of (spec, ops); non-trivial = histories in which a wrapper equation was checked with a dictionary that overlaps the pre-set "
         "dictionary inside a section or at a leaf"
     )
-    ASSUMPTIONS = ["type-consistent dictionaries (no scalar at a section prefix)", "pre-sets of a derivation disjoint from leaves forced by its base"]
+    ASSUMPTIONS = ["type-consistent CALLER dictionaries (no plain value at a section prefix the program reads through); pre-set dictionaries may hold a plain value where a neighbouring layer holds a section", "pre-sets of a derivation disjoint from leaves forced by its base"]
     QUICK = {"runs": 15000, "wall": 40}
     THOROUGH = {"runs": 300000, "wall": 480}
     NONTRIVIAL_MEASURE = "history_with_overlap"
@@ -92,7 +92,7 @@ class C08(HistoryProperty):
                 spec["roots"].append(inner)
         spec = gen.prune(spec)
         ops = gen_history(rng, cfg, spec, ops_kinds=("evaluate", "evaluate", "evaluate", "call", "validate", "keys", "explain"))
-        if cfg["dispatch"] and rng.random() < 0.35:
+        if cfg["dispatch"] and rng.random() < 0.5:
             # overloads registered in the middle of the history, on a dataset or THROUGH one derived from it: the equations
             # X'(o) = X(o overlaid by P) relate the two at every moment, so a registration made on either is one on both
             late_registrations(rng, spec, ops)
@@ -164,6 +164,10 @@ class C08(HistoryProperty):
                     if not warm_inner.same(want):
                         res.violate("parent-contaminated-by-derivative", op_index=i, node=nid2, o=o2, warm=warm_inner.brief(), cold=want.brief(), after=op["node"])
                         break
+            if any(n["id"].startswith("w") and n["k"] == "withopts" for n in spec["nodes"]):
+                res.bump("histories_with_nesting_gadget")
+            if any(n.get("mutates") for n in spec["nodes"]):
+                res.bump("histories_with_in_place_bodies")
             res.stats["events"] = w.log.seq
             res.digest = w.log.digest()
             res.seen("history", (spec, case["ops"]))
